@@ -276,7 +276,7 @@ class Check:
         if kf:
             if not any(k['what'] == kf['what'] for k in self.known): self.known.append(kf)
             return
-        if len(self.violations) >= 20: return
+        if sum(1 for v in self.violations if v['kind'] == 'correspondence') >= 20: return      # keep the first 20 concrete inputs (however many obligations failed)
         if impl and model:
             line, a, b = shrink(line, impl, model, impl_extra, model_extra, a, b)
         self.violations.append({'kind': 'correspondence', 'class': cls, 'case': line, 'impl': a, 'model': b})
